@@ -180,6 +180,7 @@ func CodeBlocks() []TextCase {
 		"multiline":       "\n\tp.N++\n\tp.N--\n",
 		"label":           " goto done; done: p.N++ ",
 		"percent":         ` _ = fmt.Sprintf("%d%%", 1) `,
+		"modulo":          ` p.N = (p.N + 1) % 3; p.N %= 2 `,
 		"unicode":         ` _ = "é汉😀" `,
 		"empty":           " ",
 		"number-literals": " _ = 0X1F + 0B11 + 0O17; _ = 1E3; _ = 0XABCp-2 ",
@@ -189,6 +190,10 @@ func CodeBlocks() []TextCase {
 		"close-comment": ` "*/" != "" `,
 		"call":          " func() bool { return p.N >= 0 }() ",
 		"percent":       ` fmt.Sprintf("%d", 1) == "1" `,
+		"modulo":        ` p.N%3 == 0 `,
+		"modulo-spaced": ` (p.N + 1) % 3 != 5 `,
+		"verbs":         ` p.N%2 == 0 && p.N%5 != 7 && fmt.Sprintf("%v%s", p.N, "%") != "" `,
+		"own-line":      "\n\tp.N >= 0\n",
 	}
 	var out []TextCase
 	for _, k := range sortedKeys(codes) {
